@@ -2,6 +2,11 @@
 
 Writer/reader agreement rules over control_plane/backup/archive.py and encryption.py.  The regular
 language toolkit is imported from props/c32.py (shared helper kept in a property module).
+
+R6 extends the agreement from *which* codec to *how it is configured*: a writer option may change the layout of the text
+but must not move it outside what the reader's decoder returns unchanged (yaml allow_unicode=True -> raw U+0085 -> folded
+into a space by safe_load; yaml default_style='>'; json separators that are not JSON).  The option tables below say which
+options are known harmless, which are known lossy, and everything else is an analysis error.
 """
 
 from __future__ import annotations
@@ -41,10 +46,19 @@ EXPLANATION = (
     "(the only thing) used. password-agrees: the set of value-changing operations on the writing side equals the set on the reading side (`.encode()` spellings normalised) - "
     "an operation only one side applies makes the two sides derive different keys from the same password, so the archive cannot be read back. An operation the rule cannot "
     "classify is an analysis error, not a pass. Not decided by R5: that equal sets of operations are applied in the same order and under the same conditions. "
-    "Not decided: YAML/JSON value fidelity, tar/gzip, AES-GCM and PBKDF2 guarantees (trusted), deployments without a valid name."
+    "R6 (codec options agree): for every encoding call that feeds an archive file (yaml.dump / yaml.safe_dump / json.dumps; encrypt/decrypt take nothing but data and the password, which R5 owns) the "
+    "keyword options, read as constants (literals, module-level constants, straight-line locals), must keep the written text inside what the matching decoder returns unchanged. "
+    "Known lossy and reported: yaml `allow_unicode=<true>` - PyYAML then writes non-ASCII raw, U+0085 (NEL) lands unescaped in a quoted scalar, is a YAML line break and is folded into a space by safe_load, "
+    "so a CR field / secret key / secret value containing it is restored as a different string, with or without encryption (accepted only when the payload is built from ASCII literals, numbers, booleans and "
+    "lengths alone, or together with default_style='\"', where line breaks are escaped); yaml `default_style='>'` (folded scalars re-fold lines that start with a space); json `separators` whose parts are not "
+    "`,` / `:` up to blanks (not JSON any more). Known harmless (layout only; for yaml measured with triage/t_c33_yaml_options.py over every code point U+0001..U+2FFF and folding-prone strings as values, items and keys): "
+    "yaml default_flow_style, sort_keys, indent, width, explicit_start, explicit_end, canonical, line_break, default_style in (None, '\"', \"'\", '|'), encoding None/utf-8, Dumper=yaml.SafeDumper/yaml.Dumper; "
+    "json indent, sort_keys, ensure_ascii, check_circular, allow_nan (these change the text or what is refused, never what loads returns). Any other option (json default/skipkeys/cls, yaml tags/version/stream, C emitters), "
+    "a non-constant option value, `**kwargs`, or any value-replacing option on the decoding side (json.loads parse_*/object_hook/cls, yaml.load with a loader other than the pure-Python ones) is an analysis error, not a pass. "
+    "Not decided: YAML/JSON value fidelity under default options for values outside str/int/float/bool/None/list/dict, tar/gzip, AES-GCM and PBKDF2 guarantees (trusted), deployments without a valid name."
 )
 TRUSTED = ["CPython ast, re._parser", "yaml/json round-trip, tarfile, cryptography (AES-GCM authenticates key and data)"]
-LEVEL_NOTE = "writer-reader agreement decided on file-name languages, byte layouts and predicates; value fidelity is trusted to yaml/json"
+LEVEL_NOTE = "writer-reader agreement decided on file-name languages, byte layouts, predicates and encoder options; value fidelity under the accepted options is trusted to yaml/json"
 TECHNIQUE = "regular-language decision list for the reader chain; segment/slice algebra; predicate classification"
 
 ARCHIVE = "llama_agents.control_plane.backup.archive"
@@ -206,7 +220,8 @@ class Writer:
         for c, name_e, data_e in sites:
             st = enclosing_stmt(c)
             var, suffix = _template(expand(name_e, st, depth=1) if isinstance(name_e, ast.Name) else name_e)  # a local holding the member name: one level
-            ops, payload = codec_chain(expand(data_e, st, depth=4))
+            data_x = expand(data_e, st, depth=4)
+            ops, payload = codec_chain(data_x)
             root = _root_param(data_e, fn, st)
             keys = None
             pe = payload
@@ -214,7 +229,7 @@ class Writer:
                 pe = expand(pe, st)
             if isinstance(pe, ast.Dict):
                 keys = [k.value for k in pe.keys if isinstance(k, ast.Constant)]
-            self.entries.append({"call": c, "var": var, "suffix": suffix, "ops": ops, "root": root, "keys": keys, "payload": pe})
+            self.entries.append({"call": c, "var": var, "suffix": suffix, "ops": ops, "root": root, "keys": keys, "payload": pe, "data_x": data_x})
         vars_ = {e["var"] for e in self.entries if e["var"] is not None}
         if len(vars_) > 1:
             raise AnchorError(f"writer file names use several name variables {sorted(vars_)}")
@@ -351,6 +366,7 @@ class Reader:
         b["strip"] = None
         b["dest"] = None
         b["ops"] = None
+        b["codec_expr"] = None
         for n in ast.walk(self.fn):
             if isinstance(n, ast.Assign) and len(n.targets) == 1 and enclosing_function(n) is self.fn:
                 nodes = self.cfg.nodes_of(n)
@@ -361,13 +377,15 @@ class Reader:
                     b["dest"] = tgt.value.id
                     key = expand(tgt.slice, n, depth=1)
                     b["strip"] = _strip_of(key, self.subject)
-                    ops, _root = codec_chain(_xexpand(val, n, depth=4))
+                    b["codec_expr"] = _xexpand(val, n, depth=4)
+                    ops, _root = codec_chain(b["codec_expr"])
                     b["ops"] = ops
                 elif isinstance(tgt, ast.Name):
                     ops, root = codec_chain(val)
                     if ops and b["dest"] is None and not any(isinstance(x, ast.Name) and x.id == self.subject for x in ast.walk(val)):
                         b["dest"] = tgt.id
                         b["ops"] = ops
+                        b["codec_expr"] = val
                         b["strip"] = ""
 
 
@@ -426,6 +444,143 @@ def _dest_fields(fn: ast.AST, dests: set[str]) -> dict[str, set[str]]:
                 if d in names:
                     out[d].add(k.arg)
     return out
+
+
+# ------------------------------------------------------------------------------ R6 helpers (codec options)
+_UNREAD = object()
+YAML_DUMP, YAML_LOAD = ("yaml.dump", "yaml.safe_dump"), ("yaml.safe_load", "yaml.load", "yaml.full_load")
+# Options of the PyYAML writer with no effect on what safe_load returns (layout only); measured by triage/t_c33_yaml_options.py
+# over every code point U+0001..U+2FFF in three positions plus folding-prone strings, as values, list items and keys.
+YAML_LAYOUT = {"default_flow_style", "sort_keys", "indent", "width", "explicit_start", "explicit_end", "canonical", "line_break"}
+YAML_STYLES_OK = (None, '"', "'", "|")  # measured lossless; '>' (folded) is measured lossy: lines that start with a space are re-folded
+YAML_DUMPERS = {"yaml.SafeDumper", "yaml.Dumper", "SafeDumper", "Dumper"}  # pure-Python emitters (same Emitter class as the default)
+YAML_LOADERS = {"yaml.SafeLoader", "yaml.FullLoader", "yaml.Loader", "yaml.UnsafeLoader", "SafeLoader", "FullLoader", "Loader", "UnsafeLoader"}
+JSON_LAYOUT = {"indent", "sort_keys", "ensure_ascii", "check_circular", "allow_nan"}  # text layout / what is refused; never what loads returns
+
+
+def _opt_value(e: ast.AST, consts: dict[str, ast.AST], depth: int = 0):
+    """The constant an option expression always evaluates to (literal, tuple of literals, ±literal, `float("inf")`, a module-level
+    constant), or _UNREAD."""
+    if isinstance(e, ast.Constant):
+        return e.value
+    if isinstance(e, ast.UnaryOp) and isinstance(e.op, (ast.USub, ast.Not)):
+        v = _opt_value(e.operand, consts, depth + 1)
+        if v is _UNREAD:
+            return v
+        return (not v) if isinstance(e.op, ast.Not) else (-v if isinstance(v, (int, float)) else _UNREAD)
+    if isinstance(e, (ast.Tuple, ast.List)):
+        vs = [_opt_value(x, consts, depth + 1) for x in e.elts]
+        return _UNREAD if any(v is _UNREAD for v in vs) else tuple(vs)
+    if isinstance(e, ast.Call) and call_name(e) == "float" and len(e.args) == 1 and isinstance(e.args[0], ast.Constant) and isinstance(e.args[0].value, str) and not e.keywords:
+        try:
+            return float(e.args[0].value)
+        except ValueError:
+            return _UNREAD
+    if isinstance(e, ast.Name) and e.id in consts and depth < 4:
+        return _opt_value(consts[e.id], consts, depth + 1)
+    if isinstance(e, ast.Attribute) and dotted(e) in ("math.inf", "sys.maxsize"):
+        return float("inf")
+    return _UNREAD
+
+
+def _ascii_only(e: ast.AST) -> bool:
+    """The value is built from ASCII literals, numbers, booleans and lengths only: no caller-supplied text can occur in it."""
+    if isinstance(e, ast.Constant):
+        return e.value is None or isinstance(e.value, (bool, int, float)) or (isinstance(e.value, str) and e.value.isascii() and e.value.isprintable())
+    if isinstance(e, ast.Dict):
+        return all(k is not None and _ascii_only(k) for k in e.keys) and all(_ascii_only(v) for v in e.values)
+    if isinstance(e, (ast.List, ast.Tuple)):
+        return all(_ascii_only(x) for x in e.elts)
+    if isinstance(e, ast.Call) and call_name(e) in ("len", "bool", "int") and not e.keywords:
+        return True
+    if isinstance(e, ast.Compare):
+        return True
+    if isinstance(e, ast.UnaryOp) and isinstance(e.op, ast.Not):
+        return True
+    return False
+
+
+def _codec_calls(e: ast.AST | None, names: tuple) -> list[ast.Call]:
+    return [c for c in ast.walk(e) if isinstance(c, ast.Call) and (call_name(c) or "") in names] if e is not None else []
+
+
+def _kw_items(c: ast.Call, npos: int, what: str) -> list[tuple[str, ast.AST]]:
+    if len(c.args) > npos:
+        raise AnchorError(f"C33.R6: {what} at line {c.lineno} passes options positionally: cannot tell which")
+    out = []
+    for k in c.keywords:
+        if k.arg is None:
+            raise AnchorError(f"C33.R6: {what} at line {c.lineno} takes its options from `**{ast.unparse(k.value)[:40]}`: cannot tell which are passed")
+        out.append((k.arg, k.value))
+    return out
+
+
+def writer_option_faults(c: ast.Call, consts: dict[str, ast.AST]) -> list[str]:
+    """Options of one encoding call that take the output outside what the matching decoder reads back unchanged (reasons; [] = none).
+    An option the table does not know, or a value that is not a constant, raises AnchorError."""
+    n = call_name(c) or ""
+    faults: list[str] = []
+    if n in YAML_DUMP:
+        items = _kw_items(c, 1, f"`{n}`")
+        style = _opt_value(dict(items)["default_style"], consts) if "default_style" in dict(items) else None
+        for k, v in items:
+            if k in YAML_LAYOUT:
+                continue
+            val = _opt_value(v, consts)
+            if k == "Dumper":
+                if dotted(v) in YAML_DUMPERS:
+                    continue
+                raise AnchorError(f"C33.R6: `{n}(…, Dumper={ast.unparse(v)[:40]})` at line {c.lineno}: an emitter whose escaping the rule does not know")
+            if val is _UNREAD:
+                raise AnchorError(f"C33.R6: option `{k}={ast.unparse(v)[:40]}` of `{n}` at line {c.lineno} is not a constant the rule can read")
+            if k == "default_style":
+                if val == ">":
+                    faults.append("`default_style='>'` writes every string as a folded block scalar; text lines that begin with a space are re-folded on reading (measured: `' x x x …'` does not come back)")
+                elif val not in YAML_STYLES_OK:
+                    raise AnchorError(f"C33.R6: `default_style={val!r}` of `{n}` at line {c.lineno}: a scalar style the rule has no measurement for")
+                continue
+            if k == "allow_unicode":
+                if val:
+                    if (c.args and _ascii_only(c.args[0])) or style == '"':
+                        continue  # nothing but ASCII can occur / double-quoted scalars escape the line-break characters (\N, \L, \P) even when written raw otherwise
+                    faults.append("`allow_unicode=True` makes PyYAML write non-ASCII characters raw instead of as escapes; U+0085 (NEL) is then emitted unescaped inside a quoted scalar, "
+                                  "it is a YAML line break, and the loader folds it into a space (`'a\\x85b'` comes back as `'a b'`): a deployment field, secret key or secret value "
+                                  "containing it is restored as a different string, encrypted or not. Leave allow_unicode at its default (everything non-ASCII escaped)")
+                continue
+            if k == "encoding" and (val is None or (isinstance(val, str) and val.lower().replace("-", "") == "utf8")):
+                continue
+            raise AnchorError(f"C33.R6: option `{k}` of `{n}` at line {c.lineno}: the rule does not know its effect on the round trip")
+    elif n == "json.dumps":
+        for k, v in _kw_items(c, 1, "`json.dumps`"):
+            if k in JSON_LAYOUT:
+                continue
+            val = _opt_value(v, consts)
+            if k == "separators":
+                if val is None:
+                    continue
+                if val is _UNREAD or not (isinstance(val, tuple) and len(val) == 2 and all(isinstance(x, str) for x in val)):
+                    raise AnchorError(f"C33.R6: `separators={ast.unparse(v)[:40]}` of json.dumps at line {c.lineno} is not a constant pair")
+                if val[0].strip() != "," or val[1].strip() != ":":
+                    faults.append(f"`separators={val!r}` writes text that is not JSON: json.loads rejects it (or splits it differently), the file cannot be read back")
+                continue
+            raise AnchorError(f"C33.R6: option `{k}` of json.dumps at line {c.lineno}: the rule does not know its effect on the round trip")
+    return faults
+
+
+def reader_option_check(c: ast.Call) -> None:
+    """Decoding calls may carry only options that do not change the decoded value; anything else cannot be judged (AnchorError)."""
+    n = call_name(c) or ""
+    if n in ("yaml.safe_load", "yaml.full_load"):
+        if _kw_items(c, 1, f"`{n}`"):
+            raise AnchorError(f"C33.R6: `{n}` at line {c.lineno} is given options")
+    elif n == "yaml.load":
+        ld = kwarg(c, "Loader", 1)
+        if ld is None or dotted(ld) not in YAML_LOADERS or len(c.keywords) + len(c.args) > 2:
+            raise AnchorError(f"C33.R6: `yaml.load` at line {c.lineno}: loader `{ast.unparse(ld)[:40] if ld is not None else None}` is not one whose scanner the rule knows")
+    elif n == "json.loads":
+        for k, v in _kw_items(c, 1, "`json.loads`"):
+            if k != "strict":
+                raise AnchorError(f"C33.R6: option `{k}` of json.loads at line {c.lineno} replaces decoded values by something the rule cannot evaluate")
 
 
 # ------------------------------------------------------------------------------ R2 helpers
@@ -853,6 +1008,27 @@ def eval_rules(arch_tree: ast.AST, enc_tree: ast.AST, dns_pattern: str):
     yield ("floor", "C33.R1", "file kinds written", len(W.entries))
     yield ("floor", "C33.R1", "reader branches", len(R.branches))
 
+    # ---------------------------------------------------------------- R6 (codec options agree: what the writer's options emit is inside what the reader decodes unchanged)
+    aconsts = {}
+    for n in arch_tree.body:
+        if isinstance(n, ast.Assign) and len(n.targets) == 1 and isinstance(n.targets[0], ast.Name):
+            aconsts[n.targets[0].id] = n.value
+    nenc = ndec = 0
+    for e in W.entries:
+        kind = e["suffix"] if e["var"] is not None else f"fixed:{e['suffix']}"
+        for c in _codec_calls(e["data_x"], YAML_DUMP + ("json.dumps",)):
+            nenc += 1
+            codec = "yaml" if (call_name(c) or "").startswith("yaml") else "json"
+            faults = writer_option_faults(c, aconsts)
+            yield ("ob", "C33.R6", f"writer-options:{kind}:{codec}", f"the options of the {codec} encoding of `{kind}` files keep every value inside what the reader's decoder returns unchanged",
+                   not faults, "a", c, wfn, "; ".join(faults))
+    for b in R.branches:
+        for c in _codec_calls(b["codec_expr"], YAML_LOAD + ("json.loads",)):
+            ndec += 1
+            reader_option_check(c)
+    yield ("floor", "C33.R6", "encoding calls (yaml.dump / json.dumps) feeding archive files", nenc)
+    yield ("floor", "C33.R6", "decoding calls (yaml.safe_load / json.loads) in reader branches", ndec)
+
     # ---------------------------------------------------------------- R2
     econsts = {}
     for n in enc_tree.body:
@@ -1102,6 +1278,8 @@ FLOORS = {
     ("C33.R1", "file kinds written"): 5, ("C33.R1", "reader branches"): 5, ("C33.R2", "wire segments"): 3,
     ("C33.R3", "tests guarding the encrypt call"): 1, ("C33.R3", "reader tests of the password"): 1, ("C33.R4", "keys read by the reader"): 5,
     ("C33.R5", "password hand-over sites"): 5,
+    # .yaml + .secret.enc + .secret.yaml (the secret dump feeds both) + manifest.json + .meta.json; one decoder per reader branch
+    ("C33.R6", "encoding calls (yaml.dump / json.dumps) feeding archive files"): 5, ("C33.R6", "decoding calls (yaml.safe_load / json.loads) in reader branches"): 5,
 }
 
 
@@ -1125,7 +1303,7 @@ def run(chk) -> None:
     for item in eval_rules(tree, tree, dns):
         if item[0] == "ob" and not item[4]:
             bad[item[1]] = bad.get(item[1], 0) + 1
-    for rule in ("C33.R1", "C33.R2", "C33.R3", "C33.R4", "C33.R5"):
+    for rule in ("C33.R1", "C33.R2", "C33.R3", "C33.R4", "C33.R5", "C33.R6"):
         chk.floor(rule, "planted defects reported in the fixture", bad.get(rule, 0), 1)
     chk.observe("a deployment whose metadata has no name is written as `unknown.yaml` (several such deployments overwrite each other): outside the statement's 'valid names'")
     chk.observe("names with dots would make `x.secret.yaml` ambiguous; excluded because _DNS_1035_RE admits no dot (checked on the regex language)")
@@ -1164,7 +1342,27 @@ _WSEC = ('                if encryption_password is not None:\n                 
          '                else:\n                    _add_bytes_to_tar(tar, f"{name}.secret.yaml", secret_yaml)\n')
 _WFUN = ('                if encryption_password is None:\n                    member_name, payload = f"{name}.secret.yaml", secret_yaml\n                else:\n'
          '                    payload = encrypt(secret_yaml, encryption_password)\n                    member_name = f"{name}.secret.enc"\n                _add_bytes_to_tar(tar, member_name, payload)\n')
+_DCR = "cr_yaml = yaml.dump(cr, default_flow_style=False).encode()"
+_DSEC = "secret_yaml = yaml.dump(secret_data, default_flow_style=False).encode()"
+_IMP = "import yaml\n"
 TWINS: list[Twin] = [
+    # ---- R6: options of the encoders vs what the decoders return unchanged
+    Twin("both YAML dumps write unicode raw (NEL is folded into a space on reading)", _AR, *_multi(_AR, [
+        (_DCR, 'cr_yaml = yaml.dump(\n                cr, default_flow_style=False, allow_unicode=True\n            ).encode("utf-8")'),
+        (_DSEC, 'secret_yaml = yaml.dump(\n                    secret_data, default_flow_style=False, allow_unicode=True\n                ).encode("utf-8")')]), "C33.R6"),
+    Twin("secret dump only, safe_dump, flag through a module constant", _AR, *_multi(_AR, [
+        (_IMP, _IMP + "\n_READABLE_YAML = True\n"),
+        (_DSEC, "secret_yaml = yaml.safe_dump(secret_data, default_flow_style=False, allow_unicode=_READABLE_YAML).encode()")]), "C33.R6"),
+    Twin("dump options collected in a local, unicode raw", _AR, _DCR, "text = yaml.dump(cr, sort_keys=False, allow_unicode=not False)\n            cr_yaml = text.encode()", "C33.R6"),
+    Twin("CRs written as folded block scalars", _AR, _DCR, "cr_yaml = yaml.dump(cr, default_flow_style=False, default_style='>').encode()", "C33.R6"),
+    Twin("meta file written with a non-JSON key separator", _AR, 'json.dumps({"generation": generations[name]})', 'json.dumps({"generation": generations[name]}, separators=(",", "="))', "C33.R6"),
+    Twin("benign: explicit default escaping, layout options", _AR, *_multi(_AR, [
+        (_DCR, "cr_yaml = yaml.dump(cr, default_flow_style=False, allow_unicode=False, sort_keys=False, width=120).encode()"),
+        (_DSEC, 'secret_yaml = yaml.safe_dump(secret_data, default_flow_style=False, indent=4, explicit_start=True).encode("utf-8")')]), None),
+    Twin("benign: unicode raw but every scalar double-quoted (line breaks escaped)", _AR, _DCR, "cr_yaml = yaml.dump(cr, default_flow_style=False, allow_unicode=True, default_style='\"').encode()", None),
+    Twin("benign: JSON layout options", _AR, *_multi(_AR, [
+        ("json.dumps(manifest, indent=2)", 'json.dumps(manifest, indent=2, sort_keys=True, ensure_ascii=False, separators=(",", ": "))'),
+        ('json.dumps({"generation": generations[name]})', 'json.dumps({"generation": generations[name]}, separators=(",", ":"))')]), None),
     # ---- the decision list as `continue` guards; slices through a packed tuple; derived layout constants
     Twin("benign: reader chain as continue guards", _AR, _CHAIN, _guards(), None),
     Twin("benign: continue guards, last arm inverted", _AR, _CHAIN, _guards(invert_last=True), None),
